@@ -5,3 +5,5 @@ package netpoll
 import "unsafe"
 
 func uintptrOf(p *byte) uintptr { return uintptr(unsafe.Pointer(p)) }
+
+func verifUnsafe(p *[8]byte) unsafe.Pointer { return unsafe.Pointer(p) }
